@@ -4,9 +4,9 @@ EXPLANATION = ("Send/Sync answered by rustc's trait solver for Scanner, ScannerI
                "compile_fail witnesses in the thorough tier); no hand-made unsafe impl; closed, content-checked list of two unsafe blocks with "
                "the side conditions of the unchecked index (ids minted only by the registry, table only grows, predicates created after the "
                "last registration); one lock, acquired exclusively once per build, guard is a temporary, nothing reachable from "
-               "ScannerCache::get touches the lock again; no other shared mutable state (type walk). Lock poisoning: the panic-site inventories of the build path "
+               "ScannerCache::get touches the lock again; no other shared mutable state (type walk); no walk over a randomly seeded hash table (results do not depend on the thread). Lock poisoning: the panic-site inventories of the build path "
                "(C15.h, runs under the write lock) and of the scan path (C07.d) are re-checked here.")
-RULES = {"C14.a", "C14.b", "C14.c", "C14.d", "C14.e"}
+RULES = {"C14.a", "C14.b", "C14.c", "C14.d", "C14.e", "C14.f"}
 
 
 def check(ctx):
